@@ -142,7 +142,7 @@ func (s *grpcServer) GetCapabilities(ctx context.Context,
 	return &resp, nil
 }
 
-// Return an error if `hash` is not a valid cache key.
+// Return an error if `hash` and `size` are not a valid blob digest.
 func (s *grpcServer) validateHash(hash string, size int64, logPrefix string) error {
 	if size < int64(0) {
 		msg := "Invalid negative blob size"
@@ -150,6 +150,12 @@ func (s *grpcServer) validateHash(hash string, size int64, logPrefix string) err
 		return status.Error(codes.InvalidArgument, msg)
 	}
 
+	return s.validateKey(hash, size, logPrefix)
+}
+
+// Return an error if `hash` is not a valid cache key. A negative size
+// means that the caller does not know the size.
+func (s *grpcServer) validateKey(hash string, size int64, logPrefix string) error {
 	if size == int64(0) {
 		if hash == emptySha256 {
 			return nil
